@@ -147,6 +147,8 @@ type Interp struct {
 	mlocks    map[string]*lockState
 	condGen   map[string]int
 	wgCount   map[string]int
+	asmMulHi  string // non-empty: MULQ's high word is this uninterpreted function (asm_amd64.go)
+	asmMulLo  string // non-empty: low product words are this uninterpreted function
 }
 
 var stringType = types.Typ[types.String]
@@ -644,6 +646,9 @@ func (in *Interp) callFn(fn *ssa.Function, args []Value, env []Value, caller *Fr
 		return h(in, args, caller)
 	}
 	if len(fn.Blocks) == 0 {
+		if r, ok := in.tryAsm(fn, args); ok {
+			return r
+		}
 		panic(in.unsupported("call of external function " + name))
 	}
 	if fn.Pkg != nil {
